@@ -364,6 +364,7 @@ class Path:
         self.ret = None
         self.raised = False
         self.yields = []
+        self.flow = None       # 'continue' / 'break' inside an unrolled loop
 
     def clone(self):
         p = Path(self.ranges)
@@ -373,6 +374,8 @@ class Path:
         p.ret = self.ret
         p.raised = self.raised
         p.yields = list(self.yields)
+        p.flow = self.flow
+        p.last_cond = getattr(self, 'last_cond', None)
         return p
 
 
@@ -776,6 +779,22 @@ class Evaluator:
                 return BV([a.any_set()])
             if isinstance(a, BV) and cb == 0 and isinstance(op, ast.Eq):
                 return BV([c_not(a.any_set())])
+            if isinstance(a, BV) and cb is not None and cb >= 0:
+                # x > 2^k - 1, x >= 2^k: some bit >= k set (and negations)
+                thr = None
+                if isinstance(op, (ast.Gt, ast.LtE)) and (cb + 1) & cb == 0:
+                    thr = (cb + 1).bit_length() - 1
+                elif isinstance(op, (ast.GtE, ast.Lt)) and cb > 0 and \
+                        cb & (cb - 1) == 0:
+                    thr = cb.bit_length() - 1
+                if thr is not None:
+                    hi = BV(a.cells[thr:] or [ZERO])
+                    t = hi.any_set()
+                    if isinstance(op, (ast.LtE, ast.Lt)):
+                        t = c_not(t)
+                    r = BV([t])
+                    rc = r.as_const()
+                    return bool(rc) if rc is not None else r
             return ('symcmp', ast.unparse(node))
         x, y = self.to_aff(a), self.to_aff(b)
         d = x - y
@@ -890,21 +909,47 @@ class Evaluator:
             if isinstance(fn.value, ast.Name) and fn.value.id in env and \
                     isinstance(env[fn.value.id], ObjRef):
                 return self.inline(env[fn.value.id], fn.attr, e, env, path)
+        c = self.callee_of(e, env)
+        if c is not None:
+            return self.inline_one(c[0], c[1], e, env, path)
         raise AnalysisError('call outside the model: ' +
                             ast.unparse(e)[:60])
 
-    def inline(self, obj, mname, call, env, path):
-        m = self.model.lookup_method(obj.cls, mname)
-        if m is None:
-            raise AnalysisError('method {} not found'.format(mname))
+    def callee_of(self, call, env):
+        """-> (FuncInfo, receiver ObjRef or None) when the call can be
+        inlined: a method of a modelled object or a module-level function"""
+        fn = call.func
+        if isinstance(fn, ast.Attribute) and isinstance(fn.value, ast.Name) \
+                and isinstance(env.get(fn.value.id), ObjRef):
+            name = fn.attr
+            if name in self.hooks:
+                return None
+            obj = env[fn.value.id]
+            m = self.model.lookup_method(obj.cls, name)
+            if m is not None:
+                return (m, obj)
+        if isinstance(fn, ast.Name) and fn.id not in env and \
+                fn.id not in self.hooks:
+            r = self.model.resolve_name(self.f.module, fn.id)
+            if r and r[0] == 'func':
+                return (r[1], None)
+        return None
+
+    def inline_paths(self, m, obj, call, env, path):
+        """run the callee on `path`; -> [(path_i, return value_i)] for the
+        paths that do not raise"""
         if self.depth > 3:
             raise AnalysisError('inline depth')
-        params = m.params()[1:]
         a = m.node.args
-        names = [x.arg for x in a.args][1:]
+        names = [x.arg for x in a.args]
+        new = {}
+        if obj is not None:
+            new[names[0]] = obj
+            names = names[1:]
         defaults = dict(zip(names[len(names) - len(a.defaults):], a.defaults))
-        new = {m.params()[0]: obj}
         for i, arg in enumerate(call.args):
+            if i >= len(names):
+                raise AnalysisError('too many arguments for ' + m.name)
             new[names[i]] = self.ev(arg, env, path)
         for k in call.keywords:
             new[k.arg] = self.ev(k.value, env, path)
@@ -922,18 +967,40 @@ class Evaluator:
         sub.check_asserts = getattr(self, 'check_asserts', False)
         sub.assert_failures = getattr(self, 'assert_failures', [])
         sub.derived = getattr(self, 'derived', {})
+        saved_flow = path.flow
         paths = sub.run_from(m.node.body, new, path)
         self.accesses = sub.accesses
         self.assert_failures = sub.assert_failures
+        out = []
+        for p in paths:
+            if p.raised:
+                continue
+            ret = p.ret if p.ret is not None else NONE
+            p.ret = None
+            p.flow = saved_flow
+            out.append((p, ret))
+        return out
+
+    def inline(self, obj, mname, call, env, path):
+        m = self.model.lookup_method(obj.cls, mname)
+        if m is None:
+            raise AnalysisError('method {} not found'.format(mname))
+        return self.inline_one(m, obj, call, env, path)
+
+    def inline_one(self, m, obj, call, env, path):
+        live = self.inline_paths(m, obj, call, env, path)
         self.cur = path
-        live = [p for p in paths if not p.raised]
         if len(live) != 1:
             raise AnalysisError('inlined call {} has {} live paths'.format(
-                mname, len(live)))
-        p = live[0]
-        path.stores = p.stores
-        path.assume = p.assume
-        return p.ret if p.ret is not None else NONE
+                m.name, len(live)))
+        p, ret = live[0]
+        if p is not path:
+            path.stores = p.stores
+            path.assume = p.assume
+            path.ranges = p.ranges
+            path.constraints = p.constraints
+            path.yields = p.yields
+        return ret
 
     # ---- statements -----------------------------------------------------------
     def run(self, env):
@@ -996,11 +1063,70 @@ class Evaluator:
         if isinstance(st, ast.Raise):
             path.raised = True
             return [(path, env, True)]
+        if isinstance(st, ast.Assign) and isinstance(st.value, ast.Call):
+            c = self.callee_of(st.value, env)
+            if c is not None:
+                outs = []
+                for (p2, ret) in self.inline_paths(c[0], c[1], st.value, env,
+                                                   path):
+                    e2 = {k: (list(v) if isinstance(v, list) else v)
+                          for k, v in env.items()}
+                    self.cur = p2
+                    for t in st.targets:
+                        self.assign(t, ret, e2, p2, st)
+                    outs.append((p2, e2, False))
+                if not outs:
+                    path.raised = True
+                    return [(path, env, True)]
+                return outs
         if isinstance(st, ast.Assign):
             v = self.ev(st.value, env, path)
             for t in st.targets:
                 self.assign(t, v, env, path, st)
             return [(path, env, False)]
+        if isinstance(st, ast.For) and not st.orelse and \
+                isinstance(st.iter, ast.Call) and \
+                isinstance(st.iter.func, ast.Name) and \
+                st.iter.func.id == 'range' and \
+                isinstance(st.target, ast.Name):
+            # constant-trip loop: unroll
+            args = []
+            for a in st.iter.args:
+                v = self.to_aff(self.ev(a, env, path))
+                if not v.is_const():
+                    raise AnalysisError('loop over a symbolic range: ' +
+                                        ast.unparse(st.iter)[:50])
+                args.append(v.const)
+            trips = list(range(*args))
+            if len(trips) > 64:
+                raise AnalysisError('loop too long to unroll: ' +
+                                    ast.unparse(st.iter)[:50])
+            self.unrolling = getattr(self, 'unrolling', 0) + 1
+            try:
+                states = [(path, env, False)]
+                finished = []
+                for k in trips:
+                    nxt = []
+                    for (p, en, done) in states:
+                        en = dict(en)
+                        en[st.target.id] = k
+                        for (p2, e2, d2) in self.block(st.body, en, p):
+                            if d2 and p2.flow == 'continue':
+                                p2.flow = None
+                                nxt.append((p2, e2, False))
+                            elif d2 and p2.flow == 'break':
+                                p2.flow = None
+                                finished.append((p2, e2, False))
+                            elif d2:
+                                finished.append((p2, e2, True))
+                            else:
+                                nxt.append((p2, e2, False))
+                    states = nxt
+                    if len(states) + len(finished) > 512:
+                        raise AnalysisError('too many paths')
+                return states + finished
+            finally:
+                self.unrolling -= 1
         if isinstance(st, ast.AugAssign):
             cur = ast.BinOp(left=_load(st.target), op=st.op, right=st.value)
             ast.copy_location(cur, st)
@@ -1049,13 +1175,27 @@ class Evaluator:
         if isinstance(st, ast.Pass):
             return [(path, env, False)]
         if isinstance(st, ast.Continue):
+            if getattr(self, 'unrolling', 0):
+                path.flow = 'continue'
+                return [(path, env, True)]
             path.assume.append(('continue',))
+            return [(path, env, True)]
+        if isinstance(st, ast.Break):
+            if getattr(self, 'unrolling', 0):
+                path.flow = 'break'
+                return [(path, env, True)]
+            # body of a loop modelled by one symbolic iteration: a break is
+            # the end of this and of every later iteration; the rule decides
+            # whether the condition it sits under is monotone in the loop
+            # variable
+            path.assume.append(('break', getattr(path, 'last_cond', None)))
             return [(path, env, True)]
         raise AnalysisError('statement outside the model: ' +
                             ast.unparse(st)[:60])
 
     def refine(self, c, val, path, node):
         path.assume.append((ast.unparse(node)[:60], val))
+        path.last_cond = (c, val)
         if isinstance(c, tuple) and c[0] == 'affcmp':
             _k, opt, d = c
             if len(d.coeffs) > 1:
